@@ -8,10 +8,11 @@
 // batches by index, batches() range, elements() forwards and backwards (const and non-const), inputs()/labels()
 // separately, getPartitioning; element(i) / begin()+i / view[i] are O(#batches) each and are therefore read at all
 // positions only when n * #batches is small, else at the positions around every multiple of 2^16, at the batch
-// borders around batch 2^16, at both ends and at 48 pseudo-random positions).
+// borders around batch 2^16, at both ends and at 10 pseudo-random positions).  Slots an op does not name as a result
+// are re-read batch by batch only (contents and partitioning unchanged).
 // Line protocol as harness/c03.cpp: one op per line, one observation line per op, " !oracle <tag>" on failure.
 //   index lists / size lists are given as segments:  lo:cnt:step (ascending)  lo:cnt:-step (descending)
-//   ~seed:cnt:bound (pseudo-random below bound)  and sizes as  size*count
+//   ~seed:cnt:bound (pseudo-random below bound)  %a:cnt:m ((j*a) mod m)  and sizes as  size*count
 #include <shark/Data/Dataset.h>
 #include <shark/Data/DataView.h>
 #include "common.hpp"
@@ -104,6 +105,12 @@ static bool parseSeg(std::string const& t, std::vector<std::size_t>& out){
 		for(unsigned long long i = 0; i != cnt; ++i) out.push_back((std::size_t)r.below(bound));
 		return true;
 	}
+	if(t[0] == '%'){                                       // %a:cnt:m -> (j * a) mod m
+		unsigned long long a, cnt, m; char x;
+		if(std::sscanf(t.c_str() + 1, "%llu:%llu:%llu%c", &a, &cnt, &m, &x) != 3 || cnt > 10000000ULL || m == 0) return false;
+		for(unsigned long long i = 0; i != cnt; ++i) out.push_back((std::size_t)((i * a) % m));
+		return true;
+	}
 	if(t.find(':') != std::string::npos){
 		unsigned long long lo, cnt; long long step; char x;
 		if(std::sscanf(t.c_str(), "%llu:%llu:%lld%c", &lo, &cnt, &step, &x) != 3 || cnt > 10000000ULL) return false;
@@ -125,7 +132,7 @@ struct Scale{
 	typedef typename DS::element_type Pair;
 	DS d[4]; Flat sh[4];
 	View v[2]; bool vset[2]; Flat vsh[2]; std::vector<std::size_t> vidx[2];
-	std::string oracleMsg; std::size_t fails;
+	std::string oracleMsg; std::size_t fails; bool dirty[4];
 
 	Scale(): fails(0){ vset[0] = vset[1] = false; }
 	void fail(std::string const& tag){ if(++fails <= 6) oracleMsg += " !oracle " + tag; }
@@ -137,18 +144,18 @@ struct Scale{
 		if(n == 0) return s;
 		if((double)n * (double)std::max<std::size_t>(part.size(), 1) <= 3e6){ s.resize(n); std::iota(s.begin(), s.end(), 0); return s; }
 		auto add = [&](long long p){ if(p >= 0 && (std::size_t)p < n) s.push_back((std::size_t)p); };
-		for(long long k = 0; k != 3; ++k){ add(k); add((long long)n - 1 - k); add((long long)(n / 2) + k); }
-		for(long long m = 65536; m <= (long long)n + 2; m += 65536) for(long long k = -3; k <= 3; ++k) add(m + k);
-		for(long long k = -2; k <= 2; ++k){ add(32768 + k); add(256 + k); }
+		for(long long k = 0; k != 2; ++k){ add(k); add((long long)n - 1 - k); }
+		for(long long m = 65536; m <= (long long)n + 2; m += 65536) for(long long k = -2; k <= 2; ++k) add(m + k);
+		add(255); add(256); add(32767); add(32768);
 		// elements of the batches around batch 2^16 (and 2^15), first and last of each
 		std::size_t start = 0;
 		for(std::size_t b = 0; b != part.size(); ++b){
-			bool near = (b + 3 >= 65536 && b <= 65536 + 3) || (b + 2 >= 32768 && b <= 32768 + 2) || b + 2 >= part.size() || b < 2;
+			bool near = (b + 2 >= 65536 && b <= 65536 + 1) || b + 1 >= part.size() || b < 1;
 			if(near && part[b]){ add((long long)start); add((long long)(start + part[b] - 1)); }
 			start += part[b];
 		}
 		vh::SplitMix64 r(n * 31 + part.size());
-		for(int k = 0; k != 48; ++k) add((long long)r.below(n));
+		for(int k = 0; k != 10; ++k) add((long long)r.below(n));
 		std::sort(s.begin(), s.end()); s.erase(std::unique(s.begin(), s.end()), s.end());
 		return s;
 	}
@@ -158,7 +165,7 @@ struct Scale{
 	}
 	static bool hasEmptyBatch(std::vector<std::size_t> const& p){ for(std::size_t x: p) if(x == 0) return true; return false; }
 
-	std::string showDS(std::size_t k){
+	std::string showDS(std::size_t k, bool full){
 		DS& m = d[k]; DS const& s = d[k]; Flat const& f = sh[k];
 		std::vector<std::size_t> part = s.inputs().getPartitioning(), lpart = s.labels().getPartitioning();
 		std::size_t n = s.numberOfElements(), nb = s.numberOfBatches();
@@ -183,7 +190,7 @@ struct Scale{
 				if(g != f[pos]){ fail(where("batch(b)", k, pos, g, f[pos])); bad = true; break; }
 			}
 		}
-		if(bad) return os.str();
+		if(bad || !full) return os.str();      // a slot the op did not name: contents and partitioning only
 		pos = 0;
 		for(auto const& batch: s.batches()){
 			for(std::size_t i = 0; i != batchSize(batch) && !bad; ++i, ++pos){
@@ -249,7 +256,8 @@ struct Scale{
 			if(it.index() != p || g2 != f[p]){ fail(where("begin()+i", k, p, g2, f[p])); break; }
 			Elem g3(Codec<I>::dec(s.inputs().element(p)), *(lb + p));
 			if(g3 != f[p] || Codec<I>::dec(*(ib + p)) != f[p].first){ fail(where("inputs().element(i)", k, p, g3, f[p])); break; }
-			Elem g4((Codec<I>::dec(m.element(p).input)), m.element(p).label);
+			auto me = m.element(p);
+			Elem g4((Codec<I>::dec(me.input)), me.label);
 			if(g4 != f[p]){ fail(where("element(i)-non-const", k, p, g4, f[p])); break; }
 		}
 		return os.str();
@@ -284,7 +292,7 @@ struct Scale{
 	}
 	std::string showState(){
 		std::string s;
-		for(std::size_t k = 0; k != 4; ++k) s += (k ? " " : "") + showDS(k);
+		for(std::size_t k = 0; k != 4; ++k) s += (k ? " " : "") + showDS(k, dirty[k]);
 		for(std::size_t k = 0; k != 2; ++k) s += " " + showView(k);
 		return s;
 	}
@@ -704,6 +712,17 @@ struct Scale{
 			if(!ok){ std::cout << "bad-op" << std::endl; continue; }
 			oracleMsg.clear(); fails = 0;
 			std::string status = "ok", extra;
+			// which slots the op names as results (the others get the cheap check: contents and partitioning unchanged)
+			for(std::size_t k = 0; k != 4; ++k) dirty[k] = false;
+			{
+				std::string const& o = t[0];
+				auto mark = [&](std::size_t i){ if(i < a.size() && a[i] < 4) dirty[a[i]] = true; };
+				if(o == "reset" || o == "setel" || o == "vset") for(std::size_t k = 0; k != 4; ++k) dirty[k] = true;
+				else if(o == "mk" || o == "mk3" || o == "repart" || o == "splitb" || o == "reorder" || o == "shuffle" || o == "rbc" || o == "indep" || o == "append" || o == "pushb") mark(0);
+				else if(o == "splitat" || o == "splice" || o == "swap"){ mark(0); mark(1); }
+				else if(o == "subc"){ mark(1); mark(2); }
+				else if(o == "subset" || o == "bin" || o == "ovr" || o == "xform" || o == "xlab" || o == "copy" || o == "v2d" || o == "vbat") mark(1);
+			}
 			if(!valid(t[0], a, l)){ std::cout << "undefined | " << showState() << oracleMsg << std::endl; continue; }
 			try{ extra = exec(t[0], a, l); }
 			catch(shark::Exception const& e){ status = "exception"; fail(std::string("unexpected-exception ") + t[0]); }
